@@ -7,10 +7,10 @@
 package main
 
 import (
-	"runtime/pprof"
 	"encoding/json"
 	"fmt"
 	"os"
+	"runtime/pprof"
 	"time"
 
 	"cqosverif/explore"
@@ -58,6 +58,9 @@ func runCfg(c harness.Cfg) *explore.Result {
 	if !ok {
 		return &explore.Result{InfraError: "unknown harness " + c.Harness}
 	}
+	if c.Cross > 0 {
+		return crossCheck(c, b)
+	}
 	sc := b(c)
 	e := &explore.Explorer{Sc: sc, Bound: c.Bound, Graph: c.Graph, MaxSt: c.MaxStates}
 	if c.BudgetS == 0 {
@@ -77,7 +80,7 @@ func replay(file string) int {
 	}
 	var pv struct {
 		Engine, Property, Clause, Input, Got string
-		GoTest string `json:"go_test"`
+		GoTest                               string `json:"go_test"`
 	}
 	if json.Unmarshal(b, &pv) == nil && pv.Engine == "pure" {
 		fmt.Printf("pure-function violation of %s\n  clause: %s\n  input:  %s\n  got:    %s\nre-run `./check %s quick` to re-evaluate this input on the current tree; stand-alone test:\n%s\n", pv.Property, pv.Clause, pv.Input, pv.Got, pv.Property, pv.GoTest)
@@ -115,4 +118,53 @@ func replay(file string) int {
 	}
 	fmt.Println("replay verdict:", msg)
 	return 1
+}
+
+// crossCheck validates the state-key merging: every monitor-visible state that a
+// history-keyed exploration (sound without looking inside any thread, cut at
+// depth c.Cross) reaches must also be reached by the state-keyed exploration.
+func crossCheck(c harness.Cfg, b harness.Builder) *explore.Result {
+	budget := time.Duration(c.BudgetS) * time.Second
+	if budget == 0 {
+		budget = 40 * time.Second
+	}
+	cs := c
+	cs.Cross = 0
+	a := &explore.Explorer{Sc: b(cs), Bound: -1, Graph: c.Graph, CollectProj: true, Budget: budget / 2}
+	ra := a.Run()
+	if ra.Violation != nil || ra.InfraError != "" || !ra.Exhaustive {
+		ra.Config = c.String()
+		return ra
+	}
+	ch := cs
+	ch.KeyHistory = true
+	ch.MaxSteps = c.Cross
+	h := &explore.Explorer{Sc: b(ch), Bound: -1, CollectProj: true, DepthIsEnd: true, Budget: budget / 2}
+	rh := h.Run()
+	missing := 0
+	example := ""
+	for p := range h.Proj {
+		if !a.Proj[p] {
+			missing++
+			example = p
+		}
+	}
+	ra.Config = c.String()
+	if ra.Counters == nil {
+		ra.Counters = map[string]int{}
+	}
+	ra.Counters["crosscheck_state_keyed_projections"] = len(a.Proj)
+	ra.Counters["crosscheck_history_keyed_projections"] = len(h.Proj)
+	ra.Counters["crosscheck_history_keyed_states"] = rh.States
+	ra.Counters["crosscheck_missing"] = missing
+	ra.States += rh.States
+	ra.Transitions += rh.Transitions
+	ra.Executions += rh.Executions
+	if missing > 0 {
+		ra.InfraError = fmt.Sprintf("KEY-MODE CROSS-CHECK FAILED: %d monitor states reached with history keys (depth %d) are not reached with state keys, e.g. %s", missing, c.Cross, example)
+	}
+	if rh.Violation != nil {
+		ra.Violation = rh.Violation
+	}
+	return ra
 }
